@@ -200,6 +200,7 @@ impl UnitRunner for C13 {
     let lo = (unit * CHUNK) as usize;
     let hi = (lo + CHUNK as usize).min(self.lits.len());
     let mut s = Session::new();
+    let mut respell: Vec<(usize, String, String, Canon, String)> = vec![];
     for (n, l) in self.lits[lo..hi].iter().enumerate() {
       out.evaluations += 1;
       let stmt = match l.annot { Some(k) => format!("x{}<{}> := {}", n, k, l.text), None => format!("x{} := {}", n, l.text) };
@@ -237,7 +238,29 @@ impl UnitRunner for C13 {
           }
         }
       }
+      // a literal denotes its number every time it is written: the same spelling again after a mutable variable defined from it was
+      // updated in place (+=, then assignment of another value) must still give the value it gave the first time
+      if let Outcome::Value(alone) = &o {
+        let rhs = stmt.splitn(2, ":= ").nth(1).unwrap_or("").to_string();
+        let ann = l.annot.map(|k| format!("<{}>", k)).unwrap_or_default();
+        if s.run(&format!("~m{}{} := {}", n, ann, rhs)).is_value() {
+          let u1 = s.run(&format!("m{} += m{}", n, n)).is_value();
+          let u2 = s.run(&format!("m{} = m{} + m{}", n, n, n)).is_value();
+          out.evaluations += 1;
+          let again = s.run(&format!("w{}{} := {}", n, ann, rhs));
+          match &again {
+            Outcome::Value(g) => { out.nontrivial += 1; if g != alone { out.fail(format!("C13|respelled-differs|{}", locus), format!("x := {} ; ~m := {} ; m += m ; m = m + m ; w := {}", rhs, rhs, rhs), format!("first {}, written again after the update {}", alone.short(), g.short())); } else { out.count(if u1 || u2 { "respelled_after_update_agrees" } else { "respelled_agrees(update rejected)" }); } }
+            other => out.fail(format!("C13|respelled-differs|{}", locus), format!("x := {} ; ~m := {} ; m += m ; m = m + m ; w := {}", rhs, rhs, rhs), format!("first {}, written again after the update {}", alone.short(), other.short())),
+          }
+          respell.push((n, ann, rhs, alone.clone(), locus.clone()));
+        }
+      }
       if (lo + n) % 197 == 0 { out.sample(json!({"literal": stmt.replace(&format!("x{}", n), "x"), "production": prod, "value": o.short()})); }
+    }
+    // and once more at the end of the session, after every update of the chunk
+    for (n, ann, rhs, alone, locus) in respell {
+      out.evaluations += 1;
+      if let Outcome::Value(g) = s.run(&format!("z{}{} := {}", n, ann, rhs)) { out.nontrivial += 1; if g != alone { out.fail(format!("C13|respelled-differs|{}", locus), format!("x := {} ; (other literals defined and updated in place) ; z := {}", rhs, rhs), format!("first {}, at the end of the session {}", alone.short(), g.short())); } }
     }
   }
 }
